@@ -1,7 +1,7 @@
 # C06 — hierarchy queries and flatten (DESIGN.md 3.7)
 GP = '_ZNK5gdstk4Cell12get_polygonsEbblbmRNS_5ArrayIPNS_7PolygonEEE'
 GO = '_ZNK5gdstk10Repetition11get_offsetsERNS_5ArrayINS_4Vec2EEE'
-BASE = dict(APPLY=1, DEPTH=-1, FILTER=0, REFL=0, ROT0=1, EREP=0, RREP=0, FLAT=0)
+BASE = dict(APPLY=1, DEPTH=-1, FILTER=0, REFL=0, ROT0=1, EREP=0, RREP=0, FLAT=0, TWO=0)
 def V(**kw):
     d = dict(BASE); d.update(kw); return d
 OBLIGATIONS = [
@@ -9,7 +9,7 @@ OBLIGATIONS = [
        what='Cell::get_polygons(apply_repetitions, depth, filter) on top -> reference -> leaf equals the hand-composed affine image of the leaf polygon under every reference and element repetition offset; repetitions applied or left attached denote the same shapes; depth 0 and a non-matching tag return nothing; copies are fresh',
        bound='1-vertex leaf polygon (transforms act vertex-wise), coordinates -2..2, magnification -2..2, both reflections, rotation 0 or free (c,s), element / reference repetition 2x1 / 1x2 present or not, depth in {-1, 0, 1}, filter in {none, matching, other}',
        variants=[V(), V(REFL=1, ROT0=0), V(EREP=1), V(EREP=1, APPLY=0), V(EREP=1, APPLY=0, REFL=1, ROT0=0), V(RREP=1, ROT0=0), V(RREP=1, EREP=1, APPLY=1, REFL=1, ROT0=0), V(RREP=1, EREP=1, APPLY=0, ROT0=0),
-                 V(ROT0=2), V(ROT0=2, REFL=1, EREP=1, APPLY=0), V(DEPTH=0), V(DEPTH=1, EREP=1), V(FILTER=1, EREP=1), V(FILTER=2),
+                 V(ROT0=2), V(ROT0=2, REFL=1, EREP=1, APPLY=0), V(TWO=1, FILTER=0, ROT0=0), V(TWO=1, FILTER=1, REFL=1), V(TWO=1, FILTER=2, ROT0=0), V(DEPTH=0), V(DEPTH=1, EREP=1), V(FILTER=1, EREP=1), V(FILTER=2),
                  V(FLAT=1, EREP=1, APPLY=1, REFL=1, ROT0=0), V(FLAT=1, EREP=1, APPLY=0, ROT0=0), V(FLAT=1, RREP=1)],
        unwind=11, timeout=600, mem_gb=12, real_stub_syms=['cos', 'sin', 'sincos'], nvec=20),
     Ob('get_paths_and_labels', 'C06/get_paths.c', ['_ZNK5gdstk4Cell13get_flexpathsEblbmRNS_5ArrayIPNS_8FlexPathEEE', '_ZNK5gdstk4Cell15get_robustpathsEblbmRNS_5ArrayIPNS_10RobustPathEEE', '_ZNK5gdstk4Cell10get_labelsEblbmRNS_5ArrayIPNS_5LabelEEE'],
